@@ -12,8 +12,8 @@ mv "$DEMO" /tmp/seed_demo_$ID.go
 echo "[$ID] existing tests with patch:"
 for p in "$@"; do go test -vet=off -count=1 "$p" 2>&1 | tail -3; done
 mv /tmp/seed_demo_$ID.go "$DEMO"
-git stash -q
+git diff > /tmp/seed_patch_$ID.diff; git apply -R /tmp/seed_patch_$ID.diff
 echo "[$ID] demo without patch (must PASS):"
 if go test -vet=off -count=1 -run "$RUN" "$PKG" >/tmp/seed_demo2_$ID.log 2>&1; then echo "  passes as expected"; R2=ok; else echo "  UNEXPECTED FAIL"; tail -5 /tmp/seed_demo2_$ID.log; R2=bad; fi
-git stash pop -q
+git apply /tmp/seed_patch_$ID.diff
 echo "[$ID] result: with=$R1 without=$R2"
